@@ -385,22 +385,22 @@ package gtab
 // readLookupList: no panic and termination for every behaviour of the subtable
 // readers; at most 6000 lookups plus subtables are accepted.
 //@ func readLookupList(p *parser.Parser, pos int64, sr subtableReader) (ll LookupList, err error)   props: C02 C08 C18
-//@   requires parser.inv(p) && pos >= 0 && pos <= 2305843009213693952 && sr != nil
+//@   requires parser.inv(p) && pos >= 0 && pos <= 4611686018427387904 && sr != nil
 //@   ensures faults(p.r) > old(faults(p.r)) ==> err != nil
 //@   ensures err == nil ==> parser.inv(p) && forall i int :: 0 <= i && i < len(ll) ==> ll[i] != nil && ll[i].Meta != nil
 //@   ensures p.r == old(p.r)
 //@   loop 0
-//@     invariant parser.inv(p) && p.r == old(p.r) && faults(p.r) <= old(faults(p.r)) && fresh(res) && len(res) == len(lookupOffsets) && (isnil(subtableOffsets) || fresh(subtableOffsets)) && numLookups >= 0 && numSubTables >= 0 && numLookups + numSubTables <= 6000 && sr != nil && pos >= 0 && pos <= 2305843009213693952
+//@     invariant parser.inv(p) && p.r == old(p.r) && faults(p.r) <= old(faults(p.r)) && fresh(res) && len(res) == len(lookupOffsets) && (isnil(subtableOffsets) || fresh(subtableOffsets)) && numLookups >= 0 && numSubTables >= 0 && numLookups + numSubTables <= 6000 && sr != nil && pos >= 0 && pos <= 4611686018427387904
 //@     invariant forall k int :: 0 <= k && k < iter ==> res[k] != nil && res[k].Meta != nil
 //@   loop 1
 //@     invariant parser.inv(p) && p.r == old(p.r) && faults(p.r) <= old(faults(p.r)) && 0 <= j && j <= subTableCount && len(subtableOffsets) == j && (isnil(subtableOffsets) || fresh(subtableOffsets)) && fresh(res)
 //@     decreases subTableCount - j
 //@   loop 2
 //@     invariant forall k int :: 0 <= k && k < len(subtables) ==> (is(subtables[k], *extensionSubtable) ==> subtables[k].(*extensionSubtable) != nil)
-//@     invariant parser.inv(p) && p.r == old(p.r) && faults(p.r) <= old(faults(p.r)) && fresh(subtables) && len(subtables) == subTableCount && len(subtableOffsets) == subTableCount && meta != nil && fresh(meta) && sr != nil && fresh(res) && lookupTablePos >= 0 && lookupTablePos <= 2305843009213759487
+//@     invariant parser.inv(p) && p.r == old(p.r) && faults(p.r) <= old(faults(p.r)) && fresh(subtables) && len(subtables) == subTableCount && len(subtableOffsets) == subTableCount && meta != nil && fresh(meta) && sr != nil && fresh(res) && lookupTablePos >= 0 && lookupTablePos <= 4611686018427453439
 //@   loop 3
 //@     invariant forall k int :: 0 <= k && k < len(subtables) ==> (is(subtables[k], *extensionSubtable) ==> subtables[k].(*extensionSubtable) != nil)
-//@     invariant parser.inv(p) && p.r == old(p.r) && faults(p.r) <= old(faults(p.r)) && fresh(subtables) && len(subtables) == subTableCount && len(subtableOffsets) == subTableCount && meta != nil && fresh(meta) && sr != nil && fresh(res) && lookupTablePos >= 0 && lookupTablePos <= 2305843009213759487
+//@     invariant parser.inv(p) && p.r == old(p.r) && faults(p.r) <= old(faults(p.r)) && fresh(subtables) && len(subtables) == subTableCount && len(subtableOffsets) == subTableCount && meta != nil && fresh(meta) && sr != nil && fresh(res) && lookupTablePos >= 0 && lookupTablePos <= 4611686018427453439
 
 // GSUB subtable readers.  They satisfy the subtableReader contract assumed by
 // readLookupList and deliver subtables their apply methods accept.
@@ -599,7 +599,6 @@ package gtab
 //@   requires l != nil && ctx != nil && 0 <= a && a < b && b <= len(ctx.seq) && stackinv(ctx) && keepOK(ctx) && llOK(ctx)
 //@   requires forall g uint16 :: has(l.MarkCov, g) ==> 0 <= l.MarkCov[g] && l.MarkCov[g] < len(l.MarkArray)
 //@   requires forall g uint16 :: has(l.BaseCov, g) ==> 0 <= l.BaseCov[g] && l.BaseCov[g] < len(l.BaseArray)
-//@   requires forall i int :: 0 <= i && i < len(l.BaseArray) ==> forall k int :: 0 <= k && k < len(l.MarkArray) ==> l.MarkArray[k].Class < len(l.BaseArray[i])
 //@   ensures (next == -1 || next == a + 1) && stackinv(ctx) && len(ctx.seq) == old(len(ctx.seq)) && len(ctx.stack) == old(len(ctx.stack))
 //@   ensures !has(l.MarkCov, old(ctx.seq[a].GID)) ==> next == -1
 //@   ensures forall i int :: 0 <= i && i < len(ctx.seq) ==> ctx.seq[i].GID == old(ctx.seq[i].GID) && ctx.seq[i].Advance == old(ctx.seq[i].Advance)
@@ -623,7 +622,6 @@ package gtab
 //@   requires l != nil && ctx != nil && 0 <= a && a < b && b <= len(ctx.seq) && stackinv(ctx) && keepOK(ctx) && llOK(ctx)
 //@   requires forall g uint16 :: has(l.Mark1Cov, g) ==> 0 <= l.Mark1Cov[g] && l.Mark1Cov[g] < len(l.Mark1Array)
 //@   requires forall g uint16 :: has(l.Mark2Cov, g) ==> 0 <= l.Mark2Cov[g] && l.Mark2Cov[g] < len(l.Mark2Array)
-//@   requires forall i int :: 0 <= i && i < len(l.Mark2Array) ==> forall k int :: 0 <= k && k < len(l.Mark1Array) ==> l.Mark1Array[k].Class < len(l.Mark2Array[i])
 //@   ensures (next == -1 || next == a + 1) && stackinv(ctx) && len(ctx.seq) == old(len(ctx.seq)) && len(ctx.stack) == old(len(ctx.stack))
 //@   ensures !has(l.Mark1Cov, old(ctx.seq[a].GID)) ==> next == -1
 //@   ensures forall i int :: 0 <= i && i < len(ctx.seq) ==> ctx.seq[i].GID == old(ctx.seq[i].GID) && ctx.seq[i].Advance == old(ctx.seq[i].Advance)
@@ -670,7 +668,7 @@ package gtab
 // readSeqContext1: every rule set of the result is indexed by a coverage index
 // (what SeqContext1.apply relies on).
 //@ func readSeqContext1(p *parser.Parser, subtablePos int64) (s Subtable, err error)   props: C02 C18 C07
-//@   requires parser.inv(p) && subtablePos >= 0 && subtablePos <= 2305843009213693952
+//@   requires parser.inv(p) && subtablePos >= 0 && subtablePos <= 4611686018427387904
 //@   ensures err == nil ==> parser.inv(p) && s != nil && is(s, *SeqContext1) && s.(*SeqContext1) != nil
 //@   ensures err == nil ==> forall g uint16 :: has(s.(*SeqContext1).Cov, g) ==> 0 <= s.(*SeqContext1).Cov[g] && s.(*SeqContext1).Cov[g] < len(s.(*SeqContext1).Rules)
 //@   ensures err == nil ==> forall i int :: forall j int :: 0 <= i && i < len(s.(*SeqContext1).Rules) && 0 <= j && j < len(s.(*SeqContext1).Rules[i]) ==> s.(*SeqContext1).Rules[i][j] != nil
@@ -682,7 +680,7 @@ package gtab
 //@     invariant forall i2 int :: 0 <= i2 && i2 < len(res.Rules) ==> isnil(res.Rules[i2]) || allocated(res.Rules[i2])
 //@     invariant forall i2 int :: forall j2 int :: 0 <= i2 && i2 < len(res.Rules) && 0 <= j2 && j2 < len(res.Rules[i2]) ==> res.Rules[i2][j2] != nil
 //@   loop 1
-//@     invariant parser.inv(p) && p.r == old(p.r) && faults(p.r) <= old(faults(p.r)) && res != nil && fresh(res) && fresh(res.Rules) && len(res.Rules) == len(seqRuleSetOffsets) && res.Cov != nil && fresh(res.Cov) && base >= 0 && base <= 2305843009213759487 && fresh(res.Rules[i]) && len(res.Rules[i]) == len(seqRuleOffsets)
+//@     invariant parser.inv(p) && p.r == old(p.r) && faults(p.r) <= old(faults(p.r)) && res != nil && fresh(res) && fresh(res.Rules) && len(res.Rules) == len(seqRuleSetOffsets) && res.Cov != nil && fresh(res.Cov) && base >= 0 && base <= 4611686018427453439 && fresh(res.Rules[i]) && len(res.Rules[i]) == len(seqRuleOffsets)
 //@     invariant forall g uint16 :: has(res.Cov, g) ==> 0 <= res.Cov[g] && res.Cov[g] < len(res.Rules)
 //@     invariant forall i2 int :: 0 <= i2 && i2 < len(res.Rules) && i2 != i ==> isnil(res.Rules[i2]) || (allocated(res.Rules[i2]) && ref(res.Rules[i2]) != ref(res.Rules[i]))
 //@     invariant forall i2 int :: forall j2 int :: 0 <= i2 && i2 < len(res.Rules) && i2 != i && 0 <= j2 && j2 < len(res.Rules[i2]) ==> res.Rules[i2][j2] != nil
@@ -948,7 +946,7 @@ package gtab
 // readSeqContext2: total reader; every rule pointer of the result is non-nil
 // (precondition of SeqContext2.apply).
 //@ func readSeqContext2(p *parser.Parser, subtablePos int64) (s Subtable, err error)   props: C02 C18 C07
-//@   requires parser.inv(p) && subtablePos >= 0 && subtablePos <= 2305843009213693952
+//@   requires parser.inv(p) && subtablePos >= 0 && subtablePos <= 4611686018427387904
 //@   ensures err == nil ==> parser.inv(p) && s != nil && is(s, *SeqContext2) && s.(*SeqContext2) != nil
 //@   ensures err == nil ==> forall i int :: forall j int :: 0 <= i && i < len(s.(*SeqContext2).Rules) && 0 <= j && j < len(s.(*SeqContext2).Rules[i]) ==> s.(*SeqContext2).Rules[i][j] != nil
 //@   ensures p.r == old(p.r) && (faults(p.r) > old(faults(p.r)) ==> err != nil)
@@ -958,7 +956,7 @@ package gtab
 //@     invariant forall i2 int :: 0 <= i2 && i2 < len(res.Rules) ==> isnil(res.Rules[i2]) || allocated(res.Rules[i2])
 //@     invariant forall i2 int :: forall j2 int :: 0 <= i2 && i2 < len(res.Rules) && 0 <= j2 && j2 < len(res.Rules[i2]) ==> res.Rules[i2][j2] != nil
 //@   loop 1
-//@     invariant parser.inv(p) && p.r == old(p.r) && faults(p.r) <= old(faults(p.r)) && res != nil && fresh(res) && fresh(res.Rules) && len(res.Rules) == len(classSeqRuleSetOffsets) && res.Cov != nil && fresh(res.Cov) && base >= 0 && base <= 2305843009213759487 && fresh(res.Rules[i]) && len(res.Rules[i]) == len(seqRuleOffsets)
+//@     invariant parser.inv(p) && p.r == old(p.r) && faults(p.r) <= old(faults(p.r)) && res != nil && fresh(res) && fresh(res.Rules) && len(res.Rules) == len(classSeqRuleSetOffsets) && res.Cov != nil && fresh(res.Cov) && base >= 0 && base <= 4611686018427453439 && fresh(res.Rules[i]) && len(res.Rules[i]) == len(seqRuleOffsets)
 //@     invariant forall i2 int :: 0 <= i2 && i2 < len(res.Rules) && i2 != i ==> isnil(res.Rules[i2]) || (allocated(res.Rules[i2]) && ref(res.Rules[i2]) != ref(res.Rules[i]))
 //@     invariant forall i2 int :: forall j2 int :: 0 <= i2 && i2 < len(res.Rules) && i2 != i && 0 <= j2 && j2 < len(res.Rules[i2]) ==> res.Rules[i2][j2] != nil
 //@     invariant forall j2 int :: 0 <= j2 && j2 < iter ==> res.Rules[i][j2] != nil
@@ -971,7 +969,7 @@ package gtab
 // readSeqContext3: total reader; at least one input coverage set
 // (precondition of SeqContext3.apply).
 //@ func readSeqContext3(p *parser.Parser, subtablePos int64) (s Subtable, err error)   props: C02 C18 C07
-//@   requires parser.inv(p) && subtablePos >= 0 && subtablePos <= 2305843009213693952
+//@   requires parser.inv(p) && subtablePos >= 0 && subtablePos <= 4611686018427387904
 //@   ensures err == nil ==> parser.inv(p) && s != nil && is(s, *SeqContext3) && s.(*SeqContext3) != nil && len(s.(*SeqContext3).Input) >= 1
 //@   ensures p.r == old(p.r) && (faults(p.r) > old(faults(p.r)) ==> err != nil)
 //@   modifies p.*, allelems(byte), rpos(p.r), faults(p.r)
@@ -986,7 +984,7 @@ package gtab
 // after Prune (the pruned table is still a valid coverage table: a counting
 // argument) is assumed.
 //@ func readChainedSeqContext1(p *parser.Parser, subtablePos int64) (s Subtable, err error)   props: C02 C18 C07
-//@   requires parser.inv(p) && subtablePos >= 0 && subtablePos <= 2305843009213693952
+//@   requires parser.inv(p) && subtablePos >= 0 && subtablePos <= 4611686018427387904
 //@   ensures err == nil ==> parser.inv(p) && s != nil && is(s, *ChainedSeqContext1) && s.(*ChainedSeqContext1) != nil
 //@   ensures err == nil ==> forall g uint16 :: has(s.(*ChainedSeqContext1).Cov, g) ==> 0 <= s.(*ChainedSeqContext1).Cov[g] && s.(*ChainedSeqContext1).Cov[g] < len(s.(*ChainedSeqContext1).Rules)
 //@   ensures err == nil ==> forall i int :: forall j int :: 0 <= i && i < len(s.(*ChainedSeqContext1).Rules) && 0 <= j && j < len(s.(*ChainedSeqContext1).Rules[i]) ==> s.(*ChainedSeqContext1).Rules[i][j] != nil
@@ -1000,7 +998,7 @@ package gtab
 //@     invariant forall i2 int :: 0 <= i2 && i2 < len(rules) ==> isnil(rules[i2]) || allocated(rules[i2])
 //@     invariant forall i2 int :: forall j2 int :: 0 <= i2 && i2 < len(rules) && 0 <= j2 && j2 < len(rules[i2]) ==> rules[i2][j2] != nil
 //@   loop 1
-//@     invariant K && COV && base >= 0 && base <= 2305843009213759487 && fresh(rules[i]) && len(rules[i]) == len(chainedSeqRuleOffsets)
+//@     invariant K && COV && base >= 0 && base <= 4611686018427453439 && fresh(rules[i]) && len(rules[i]) == len(chainedSeqRuleOffsets)
 //@     invariant forall i2 int :: 0 <= i2 && i2 < len(rules) && i2 != i ==> isnil(rules[i2]) || (allocated(rules[i2]) && ref(rules[i2]) != ref(rules[i]))
 //@     invariant forall i2 int :: forall j2 int :: 0 <= i2 && i2 < len(rules) && i2 != i && 0 <= j2 && j2 < len(rules[i2]) ==> rules[i2][j2] != nil
 //@     invariant forall j2 int :: 0 <= j2 && j2 < iter ==> rules[i][j2] != nil
@@ -1013,7 +1011,7 @@ package gtab
 // readChainedSeqContext2: total reader; every rule pointer is non-nil (what
 // ChainedSeqContext2.apply and the size check at the end rely on).
 //@ func readChainedSeqContext2(p *parser.Parser, subtablePos int64) (s Subtable, err error)   props: C02 C18 C07
-//@   requires parser.inv(p) && subtablePos >= 0 && subtablePos <= 2305843009213693952
+//@   requires parser.inv(p) && subtablePos >= 0 && subtablePos <= 4611686018427387904
 //@   ensures err == nil ==> parser.inv(p) && s != nil && is(s, *ChainedSeqContext2) && s.(*ChainedSeqContext2) != nil
 //@   ensures err == nil ==> forall i int :: forall j int :: 0 <= i && i < len(s.(*ChainedSeqContext2).Rules) && 0 <= j && j < len(s.(*ChainedSeqContext2).Rules[i]) ==> s.(*ChainedSeqContext2).Rules[i][j] != nil
 //@   ensures p.r == old(p.r) && (faults(p.r) > old(faults(p.r)) ==> err != nil)
@@ -1024,7 +1022,7 @@ package gtab
 //@     invariant forall i2 int :: 0 <= i2 && i2 < len(rules) ==> isnil(rules[i2]) || allocated(rules[i2])
 //@     invariant forall i2 int :: forall j2 int :: 0 <= i2 && i2 < len(rules) && 0 <= j2 && j2 < len(rules[i2]) ==> rules[i2][j2] != nil
 //@   loop 1
-//@     invariant K && base >= 0 && base <= 2305843009213759487 && fresh(rules[i]) && len(rules[i]) == len(chainedClassSeqRuleOffsets)
+//@     invariant K && base >= 0 && base <= 4611686018427453439 && fresh(rules[i]) && len(rules[i]) == len(chainedClassSeqRuleOffsets)
 //@     invariant forall i2 int :: 0 <= i2 && i2 < len(rules) && i2 != i ==> isnil(rules[i2]) || (allocated(rules[i2]) && ref(rules[i2]) != ref(rules[i]))
 //@     invariant forall i2 int :: forall j2 int :: 0 <= i2 && i2 < len(rules) && i2 != i && 0 <= j2 && j2 < len(rules[i2]) ==> rules[i2][j2] != nil
 //@     invariant forall j2 int :: 0 <= j2 && j2 < iter ==> rules[i][j2] != nil
@@ -1044,7 +1042,7 @@ package gtab
 // readChainedSeqContext3: total reader; at least one input coverage set
 // (precondition of ChainedSeqContext3.apply).
 //@ func readChainedSeqContext3(p *parser.Parser, subtablePos int64) (s Subtable, err error)   props: C02 C18 C07
-//@   requires parser.inv(p) && subtablePos >= 0 && subtablePos <= 2305843009213693952
+//@   requires parser.inv(p) && subtablePos >= 0 && subtablePos <= 4611686018427387904
 //@   ensures err == nil ==> parser.inv(p) && s != nil && is(s, *ChainedSeqContext3) && s.(*ChainedSeqContext3) != nil && len(s.(*ChainedSeqContext3).Input) >= 1
 //@   ensures p.r == old(p.r) && (faults(p.r) > old(faults(p.r)) ==> err != nil)
 //@   modifies p.*, allelems(byte), rpos(p.r), faults(p.r)
@@ -1054,3 +1052,55 @@ package gtab
 //@     invariant parser.inv(p) && p.r == old(p.r) && faults(p.r) <= old(faults(p.r)) && fresh(inputCov) && len(inputCov) == len(inputCoverageOffsets) && len(inputCoverageOffsets) >= 1
 //@   loop 2
 //@     invariant parser.inv(p) && p.r == old(p.r) && faults(p.r) <= old(faults(p.r)) && fresh(lookaheadCov) && len(lookaheadCov) == len(lookaheadCoverageOffsets) && len(inputCov) >= 1
+
+// Reverse chaining single substitution (GSUB 8.1).
+//@ func readGsub8_1(p *parser.Parser, subtablePos int64) (s Subtable, err error)   props: C02 C18 C07
+//@   requires parser.inv(p) && subtablePos >= 0 && subtablePos <= 4611686018427387904
+//@   ensures err == nil ==> parser.inv(p) && s != nil && is(s, *Gsub8_1) && s.(*Gsub8_1) != nil
+//@   ensures err == nil ==> forall g uint16 :: has(s.(*Gsub8_1).Input, g) ==> 0 <= s.(*Gsub8_1).Input[g] && s.(*Gsub8_1).Input[g] < len(s.(*Gsub8_1).SubstituteGlyphIDs)
+//@   ensures p.r == old(p.r) && (faults(p.r) > old(faults(p.r)) ==> err != nil)
+//@   modifies p.*, allelems(byte), rpos(p.r), faults(p.r)
+//@   loop 0
+//@     invariant parser.inv(p) && p.r == old(p.r) && faults(p.r) <= old(faults(p.r)) && fresh(backtrack) && len(backtrack) == len(backtrackCoverageOffsets) && input != nil && fresh(input) && coverage.covValid(input)
+//@   loop 1
+//@     invariant parser.inv(p) && p.r == old(p.r) && faults(p.r) <= old(faults(p.r)) && fresh(lookahead) && len(lookahead) == len(lookaheadCoverageOffsets) && input != nil && fresh(input) && coverage.covValid(input)
+
+// Gsub8_1.apply: replaces the covered glyph by the substitute its coverage
+// index selects iff backtrack and lookahead match; only seq[a].GID changes.
+//@ func (l *Gsub8_1) apply(ctx *Context, a int, b int) (next int)   props: C06 C07
+//@   requires l != nil && ctx != nil && 0 <= a && a < b && b <= len(ctx.seq) && stackinv(ctx) && keepOK(ctx) && llOK(ctx)
+//@   requires forall g uint16 :: has(l.Input, g) ==> 0 <= l.Input[g] && l.Input[g] < len(l.SubstituteGlyphIDs)
+//@   ensures next >= -1 && next <= len(ctx.seq) && stackinv(ctx) && len(ctx.seq) == old(len(ctx.seq)) && len(ctx.stack) == old(len(ctx.stack))
+//@   ensures next != -1 ==> next == a + 1 && old(has(l.Input, ctx.seq[a].GID)) && ctx.seq[a].GID == l.SubstituteGlyphIDs[l.Input[old(ctx.seq[a].GID)]]
+//@   ensures forall i int :: 0 <= i && i < len(ctx.seq) && (i != a || next == -1) ==> ctx.seq[i].GID == old(ctx.seq[i].GID)
+//@   modifies ctx.seq[*]
+//@   let L = len(ctx.seq) == old(len(ctx.seq)) && ref(seq) == ref(ctx.seq) && off(seq) == off(ctx.seq) && len(seq) == len(ctx.seq) && b <= len(seq) && keep == ctx.keep && stackinv(ctx) && len(ctx.stack) == old(len(ctx.stack))
+//@   let SAME = forall i int :: 0 <= i && i < len(ctx.seq) ==> ctx.seq[i].GID == old(ctx.seq[i].GID)
+//@   loop 0
+//@     invariant L && SAME && 0 <= p && p <= a && glyphsNeeded >= 0 && glyphsNeeded == len(l.Backtrack) - iter
+//@   loop 1
+//@     invariant L && SAME && -1 <= p && p < a && glyphsNeeded >= 0
+//@     decreases p + 1
+//@   loop 2
+//@     invariant L && SAME && a <= p && p < len(seq) && glyphsNeeded >= 0 && glyphsNeeded == len(l.Lookahead) - iter
+//@   loop 3
+//@     invariant L && SAME && a < p && p <= len(seq) && glyphsNeeded >= 0
+//@     decreases len(seq) - p
+
+// readGpos2_2 (class pair adjustment): total reader; every cell of the class
+// matrix holds a record (precondition of Gpos2_2.apply).
+//@ func readGpos2_2(p *parser.Parser, subtablePos int64) (s Subtable, err error)   props: C02 C18 C07
+//@   requires parser.inv(p) && subtablePos >= 0 && subtablePos <= 4611686018427387904
+//@   ensures err == nil ==> parser.inv(p) && s != nil && is(s, *Gpos2_2) && s.(*Gpos2_2) != nil
+//@   ensures err == nil ==> forall i int :: forall j int :: 0 <= i && i < len(s.(*Gpos2_2).Adjust) && 0 <= j && j < len(s.(*Gpos2_2).Adjust[i]) ==> s.(*Gpos2_2).Adjust[i][j] != nil
+//@   ensures p.r == old(p.r) && (faults(p.r) > old(faults(p.r)) ==> err != nil)
+//@   modifies p.*, allelems(byte), rpos(p.r), faults(p.r)
+//@   loop 0
+//@     invariant parser.inv(p) && p.r == old(p.r) && faults(p.r) <= old(faults(p.r)) && fresh(records) && len(records) == numRecords && 0 <= i && i <= numRecords && numRecords == class1Count * class2Count && numRecords < 65536
+//@     invariant forall k int :: 0 <= k && k < i ==> records[k] != nil
+//@     decreases numRecords - i
+//@   loop 1
+//@     invariant parser.inv(p) && p.r == old(p.r) && faults(p.r) <= old(faults(p.r)) && fresh(records) && len(records) == numRecords && numRecords == class1Count * class2Count && fresh(adjust) && len(adjust) == class1Count && 0 <= i && i <= class1Count && ref(adjust) != ref(records)
+//@     invariant forall k int :: 0 <= k && k < numRecords ==> records[k] != nil
+//@     invariant forall k int :: 0 <= k && k < i ==> ref(adjust[k]) == ref(records) && off(adjust[k]) == off(records) + k * class2Count && len(adjust[k]) == class2Count
+//@     decreases class1Count - i
